@@ -239,16 +239,9 @@ def _drive(ctx, drv, args):
 def selftests(ctx, tspec, trace, corruptions, acc):
     """One TLC run per corruption, in parallel."""
     with ThreadPoolExecutor(max_workers=len(corruptions)) as ex:
-        futs = [ex.submit(common.selftest_binding, c19cp.Sub(ctx, 'self'), tspec, trace, [c]) for c in corruptions]
+        futs = [ex.submit(c19cp.selftest_one, ctx, tspec, trace, c) for c in corruptions]
         for f in futs:
-            try:
-                acc.selftest += f.result()
-            except vlib.Infra as e:
-                # traces of a tree that already violates the property may not contain what a corruption
-                # needs (no completion to duplicate, ...): the verdict stands, the self-test is moot
-                if 'no corruption applicable' in str(e) and ctx.violations:
-                    continue
-                raise
+            acc.selftest += f.result()
 
 
 class Acc:
@@ -264,7 +257,7 @@ class Acc:
 def phase_mc_pmc(ctx, thorough):
     w = vlib.NCPU // 2 if thorough else 3
     r = ctx.tlc_expect_ok(['pmc'], 'MC_PMC.tla', 'MC_PMC.cfg', coverage=True, timeout=900, workers=w)
-    ctx.log('MC_PMC (2 GPUs, 2 serial migrations of <= 2 chunks): %d distinct states, depth %d' % (r.distinct, r.depth))
+    ctx.log('MC_PMC (2 GPUs, 3 serial migrations of <= 2 chunks, frames re-used): %d distinct states, depth %d' % (r.distinct, r.depth))
     zeros = r.coverage_zero()
     r = ctx.tlc_expect_ok(['pmc'], 'MC_PMC.tla', 'MC_PMC_conc.cfg', timeout=900, workers=w)
     ctx.log('MC_PMC_conc (3 overlapping migrations, both directions and queued): %d distinct states' % r.distinct)
@@ -278,6 +271,9 @@ def phase_mc_pmc(ctx, thorough):
     r = ctx.tlc(['pmc'], 'MC_PMC.tla', 'MC_PMC_window.cfg', timeout=900, workers=w)
     if 'NoStalledWindow' not in r.violated:
         raise vlib.Infra('MC_PMC_window: the stalled-completion window is not reachable in the model (%s %s)' % (r.violated, r.error))
+    r = ctx.tlc(['pmc'], 'MC_PMC.tla', 'MC_PMC_skipzero.cfg', timeout=900, workers=w)
+    if 'ContentsCopied' not in r.violated:
+        raise vlib.Infra('MC_PMC_skipzero: skipping the write of all-zero chunks must violate ContentsCopied (%s %s)' % (r.violated, r.error))
     r = ctx.tlc(['pmc'], 'MC_PMC.tla', 'MC_PMC_slot.cfg', timeout=900, workers=w)
     if not r.violated:
         raise vlib.Infra('MC_PMC_slot: the wrong accept guard (slot instead of busy flag) is not distinguished by the model')
